@@ -94,7 +94,7 @@ class VM:
         self.dpos = 0          # decision position on the trail
         self.ev = 0            # constraint events so far
         self.uid = 0
-        self.fuel = fuel
+        self.fuel = fuel + ex.stats.steps     # per path
         self.depth = 0; self.max_depth = max_depth
         self.pc = []           # list of constraints of this path (for reporting / models)
         self.notes = []        # harness-readable decisions ("shape" of the path)
